@@ -1,6 +1,7 @@
 package wsgen
 
 import (
+	"compress/flate"
 	"errors"
 	"fmt"
 	"io"
@@ -198,7 +199,15 @@ func (s *Spy) Final() int {
 // Cfg configures one real websocket.Conn under test.
 type Cfg struct {
 	Client            bool `json:"client,omitempty"`   // role of this endpoint
-	Compress          bool `json:"compress,omitempty"` // permessage-deflate enabled locally and negotiated
+	Compress          bool `json:"compress,omitempty"` // permessage-deflate enabled locally (Upgrader/Options.EnableCompression) and, unless Negotiated says otherwise, negotiated
+	// Negotiated separates what the handshake negotiated with this peer from the local setting:
+	// 0 = same as Compress, 1 = the extension was negotiated, -1 = it was not (the peer did not offer
+	// or accept it although it is enabled locally).
+	Negotiated int `json:"negotiated,omitempty"`
+	// Alloc selects one of nbio's own allocators instead of the tracking one: AllocAligned
+	// (mempool.NewAligned(): an Append beyond the bucket capacity returns a NEW handle and frees
+	// the old one) or AllocSTD (mempool.NewSTD()). "" = the tracking allocator (Policy, Move).
+	Alloc string `json:"alloc,omitempty"`
 	Level             int  `json:"level,omitempty"`    // compression level (only with Compress)
 	F                 int  `json:"F,omitempty"`        // Engine.MaxWebsocketFramePayloadSize (0: default 32768)
 	L                 int  `json:"L,omitempty"`        // MessageLengthLimit (0: unlimited)
@@ -217,6 +226,32 @@ type Cfg struct {
 	Guard             bool `json:"guard,omitempty"`          // freed buffers become inaccessible memory instead of being poisoned (track guard mode); the caller sets debug.SetPanicOnFault on its goroutine, recovers around calls outside Parse and calls Endpoint.Release when the case is over
 	PanicAtEvent      int  `json:"panic_at_event,omitempty"` // the k-th callback (1-based) panics
 	ExecuteFalse      bool `json:"execute_false,omitempty"`  // Conn.Execute refuses every job (closed nbio.Conn)
+	// Build is the construction path: "" = the Upgrader's Engine is the serving engine (limits and
+	// allocator configured there) and the Conn is built from it; "rebind" = the Upgrader is left as
+	// websocket.NewUpgrader() makes it (Engine = websocket.DefaultEngine with default limits), the
+	// Conn is created from it and THEN bound to the serving engine (wsc.Engine = serving), which is
+	// what Upgrader.Upgrade (poller-served connections) and Dialer.DialContext do.
+	Build string `json:"build,omitempty"`
+	// Decomp installs a custom Upgrader.WebsocketDecompressor: "eofdata" returns the last bytes
+	// together with io.EOF, "onebyte" returns one byte per Read ("" = nbio's own flate reader).
+	Decomp string `json:"decomp,omitempty"`
+}
+
+// nbio's own allocators as values of Cfg.Alloc.
+const (
+	AllocAligned = "aligned"
+	AllocSTD     = "std"
+)
+
+// RemoteCompress is what the handshake negotiated.
+func (c Cfg) RemoteCompress() bool {
+	switch c.Negotiated {
+	case 1:
+		return true
+	case -1:
+		return false
+	}
+	return c.Compress
 }
 
 // Endpoint is a real websocket.Conn over a FakeConn with recording callbacks.
@@ -280,8 +315,17 @@ func NewEndpoint(cfg Cfg) *Endpoint {
 		e.Fake.Unreadable = e.T.InFreed
 	}
 	var alloc mempool.Allocator = e.T
+	switch cfg.Alloc {
+	case "":
+	case AllocAligned:
+		alloc = mempool.NewAligned()
+	case AllocSTD:
+		alloc = mempool.NewSTD()
+	default:
+		panic("wsgen: unknown allocator " + cfg.Alloc)
+	}
 	if cfg.Spy {
-		e.Spy = &Spy{A: e.T}
+		e.Spy = &Spy{A: alloc}
 		alloc = e.Spy
 	}
 	eng := engineFor(cfg.F, cfg.ReadLimit)
@@ -294,8 +338,19 @@ func NewEndpoint(cfg Cfg) *Endpoint {
 	}
 
 	u := websocket.NewUpgrader()
-	u.Engine = eng
+	var serving *nbhttp.Engine
+	if cfg.Build == "rebind" {
+		serving = eng // u.Engine stays websocket.DefaultEngine
+	} else {
+		u.Engine = eng
+	}
 	u.KeepaliveTime = 0
+	switch cfg.Decomp {
+	case "eofdata":
+		u.WebsocketDecompressor = func(c *websocket.Conn, r io.Reader) io.ReadCloser { return &EOFWithData{R: flate.NewReader(r)} }
+	case "onebyte":
+		u.WebsocketDecompressor = func(c *websocket.Conn, r io.Reader) io.ReadCloser { return &OneByte{R: flate.NewReader(r)} }
+	}
 	u.MessageLengthLimit = cfg.L
 	u.EnableCompression(cfg.Compress)
 	if cfg.Compress {
@@ -348,7 +403,7 @@ func NewEndpoint(cfg Cfg) *Endpoint {
 	u.OnClose(func(c *websocket.Conn, err error) { e.OnCloses++ })
 	e.U = u
 	e.C = websocket.VerifSeqConn(u, e.Fake, websocket.VerifSeqConnOpt{
-		Client: cfg.Client, RemoteCompress: cfg.Compress, ReleasePayload: cfg.ReleasePayload, BlockingMod: cfg.Blocking})
+		Client: cfg.Client, RemoteCompress: cfg.RemoteCompress(), ReleasePayload: cfg.ReleasePayload, BlockingMod: cfg.Blocking, Serving: serving})
 	e.C.Execute = func(f func()) bool {
 		if cfg.ExecuteFalse {
 			return false
